@@ -59,7 +59,8 @@ def validate(ctx, module, traces, name, canaries=(), workers=16, timeout=1200, c
                 w = where(bytr[i], m) or "%s@%s:%s" % (i, m.get("l"), m.get("op"))
                 ctx.violation(m.get("clause", "?"), w, {"trace": i, "event": m.get("l"), "op": m.get("op"),
                                                          "expected": _short(m.get("exp")), "logged": _short(m.get("got")),
-                                                         "events": _short(bytr[i].get("events"), 4000) if "events" in bytr[i] else None})
+                                                         "event_logged": _short(bytr[i]["events"][m["l"] - 1], 3000)
+                                                         if "events" in bytr[i] and isinstance(m.get("l"), int) and 0 < m["l"] <= len(bytr[i]["events"]) else None})
     ctx.add_mc("trace:" + name, res, "%d traces" % len(traces), count=False)
     return out
 
